@@ -92,8 +92,9 @@ the successive `uniform` calls, `nTasks` = number of tasks of `make_full_samples
 def fileCallEvents (nShuffle : Nat) (rounds : List Nat) (nTasks : Nat) : List Ev :=
   (if nShuffle = 0 then [] else [Ev.draw nShuffle]) ++ rounds.map Ev.draw ++ [Ev.spawn nTasks]
 
-/-- in-memory paths draw the linear parameters from the parent itself (`nMvn` variates), no children -/
-def inmemCallEvents (rounds : List Nat) (nMvn : Nat) : List Ev :=
-  rounds.map Ev.draw ++ [Ev.draw nMvn]
+/-- in-memory paths draw the linear parameters from the parent itself (`nMvn` variates), no children; the shuffle
+(`rng.choice`, when `randomize_prior_order`) comes first, as on the file path -/
+def inmemCallEvents (nShuffle : Nat) (rounds : List Nat) (nMvn : Nat) : List Ev :=
+  (if nShuffle = 0 then [] else [Ev.draw nShuffle]) ++ rounds.map Ev.draw ++ [Ev.draw nMvn]
 
 end Rng
